@@ -12,6 +12,8 @@ import (
 	"errors"
 	"fmt"
 	"io"
+	"io/fs"
+	"os"
 	"regexp"
 	"sort"
 	"strconv"
@@ -497,4 +499,17 @@ func TestMapNoRace() {
 	<-done
 	<-done
 	verifrt.Assert(len(m) == 4, "map")
+}
+
+// TestTimeAndErrors: Time.Format honours its layout; os.IsNotExist recognises
+// the io/fs value although package os is not initialised by the engine.
+func TestTimeAndErrors() {
+	h, err := strconv.Atoi(time.Now().Format("15"))
+	verifrt.Assert(err == nil && h >= 0 && h < 24, "hour")
+	verifrt.Assert(len(time.Now().Format("20060102-150405")) == 15, "stamp")
+	var e error = &fs.PathError{Op: "stat", Path: "/x", Err: fs.ErrNotExist}
+	verifrt.Assert(os.IsNotExist(e), "IsNotExist(PathError{ErrNotExist})")
+	verifrt.Assert(errors.Is(e, os.ErrNotExist), "errors.Is(os.ErrNotExist)")
+	verifrt.Assert(!os.IsNotExist(errors.New("no such file")), "plain error")
+	verifrt.Reach("time-errors")
 }
